@@ -42,4 +42,18 @@ PROPS = {
             "panic freedom of the Rust readers is observed with catch_unwind on every generated input, not proved",
         ],
     },
+    "C13": {
+        "level": "proof",
+        "suites": ["c13_identity"],
+        "rule": "pairs of rules: a generated rule and a near-miss of it (permuted targets/sources, a string moved across a section boundary, "
+                "split/merged command lines, leading/trailing whitespace in a command or source, renamed target, added source, two targets merged) "
+                "or an independent rule; strings contain ':' and spaces; plus rules outside the parser's range (empty string, embedded newline). "
+                "Each rule's identity is compared with the model's SHA-256 of the canonical serialisation; the monitor compares identities pairwise "
+                "with the property's own notion of 'same rule'. Distinct by hash of the rule; every case is non-trivial (a full rule).",
+        "trusted_base": COMMON_TB + ["SHA-256 collision freedom is idealised: the theorems are about the hashed preimage"],
+        "assumptions": [
+            "theorems are about coq/Model/RuleSyntax.v + TicketModel.v (ser_rule, canon_rule) and the parser model; tied to Rule::get_ticket / Ticket::from_strings by suite c13_identity, and end-to-end (history file names) by the history suites of C01",
+            "modulo SHA-256 collisions, as the property says",
+        ],
+    },
 }
